@@ -1,10 +1,10 @@
 package main
 
 import (
-	"regexp"
 	"fmt"
 	"go/types"
 	"os"
+	"regexp"
 	"strings"
 
 	"golang.org/x/tools/go/ssa"
@@ -567,7 +567,7 @@ func (f *Frame) doAppend(c *cursor, site ssa.Instruction, call *ssa.CallCommon) 
 	mem := e.family(st, fam, memSort(es))
 	inner := arraySort(SInt, es)
 	// appended elements
-	var n Term      // number appended
+	var n Term                   // number appended
 	var elemAt func(i Term) Term // i relative to 0..n
 	var single *Term
 	if a1 := call.Args[1]; e.sortOf(a1.Type()) == SStr {
